@@ -24,16 +24,17 @@ def load_contracts():
     return REG, idx
 
 
-def _verify_one(key):
+def _verify_one(task):
     from .spec import REG
     from .verify import verify_contract
+    key, strict = task
     c = REG.contracts[key]
     tier = os.environ.get('VERIF_TIER', 'quick')
     tmo = 10000 if tier == 'quick' else 60000
     try:
-        r = verify_contract(REG, c, timeout_ms=tmo)
+        r = verify_contract(REG, c, timeout_ms=tmo, strict=strict)
     except Exception as ex:  # engine crash
-        return dict(key=key, status='error', error=f'{ex!r}\n{traceback.format_exc()}',
+        return dict(key=key, strict=strict, status='error', error=f'{ex!r}\n{traceback.format_exc()}',
                     obligations={}, paths=0, unsupported=[], notes={}, vacuity={}, time=0.0,
                     file='', line=0, stmts=0)
     obl = {}
@@ -41,7 +42,7 @@ def _verify_one(key):
         obl[n] = dict(name=n, verdict=o['verdict'], paths=o['paths'], time=round(o['time'], 4),
                       model=o['model'], line=o['line'], backend=o['backend'],
                       detail=o['detail'] if o['verdict'] == 'unknown' else '')
-    return dict(key=key, status=r.status, error=r.error, obligations=obl, paths=r.paths,
+    return dict(key=key, strict=strict, status=r.status, error=r.error, obligations=obl, paths=r.paths,
                 unsupported=r.unsupported, notes=r.notes, vacuity=r.vacuity,
                 time=round(r.time, 3), file=r.file, line=r.line, stmts=r.stmts)
 
@@ -85,7 +86,7 @@ def load_known():
     return json.load(open(p)).get('findings', [])
 
 
-def replay_refutation(REG, c, oname, model, pid, known):
+def replay_refutation(REG, c, oname, model, pid, known, strict=False):
     """Try to turn a refuted obligation into a failing concrete input of the
     real function.  Returns list of (case_desc, check_result) that violate."""
     from .native import native_check
@@ -102,7 +103,7 @@ def replay_refutation(REG, c, oname, model, pid, known):
         tried += 1
         try:
             args, kwargs = mk()
-            res = native_check(c, args, kwargs)
+            res = native_check(c, args, kwargs, with_domain=not strict)
         except Exception as ex:
             res = dict(status='error', failed=[], detail=f'{ex!r}')
         if res['status'] == 'violated':
@@ -119,13 +120,14 @@ def run_property(pid, tier='quick', seed=0, jobs=16, verbose=False):
     if not keys:
         print(f'checker error: no contracts registered for {pid}')
         return 3
-    jobs = min(jobs, len(keys))
+    tasks = [(k, False) for k in keys] + [(k, True) for k in keys if REG.contracts[k].domain]
+    jobs = min(jobs, len(tasks))
     if jobs > 1:
         ctx = mp.get_context('fork')
         with ctx.Pool(jobs) as pool:
-            results = pool.map(_verify_one, keys, chunksize=1)
+            results = pool.map(_verify_one, tasks, chunksize=1)
     else:
-        results = [_verify_one(k) for k in keys]
+        results = [_verify_one(k) for k in tasks]
     ncvc5 = cvc5_second_opinion(results, 20 if tier == 'quick' else 60)
     extra = []
     for fn in getattr(idx, 'EXTRA_CHECKS', {}).get(pid, []):
@@ -145,7 +147,7 @@ def run_property(pid, tier='quick', seed=0, jobs=16, verbose=False):
     funcs = []
     for r in results:
         c = REG.contracts[r['key']]
-        funcs.append(dict(function=r['key'], file=os.path.relpath(r['file'] or '', '/') if r['file'] else '',
+        funcs.append(dict(function=r['key'] + ('  [strict: without domain clauses]' if r['strict'] else ''), file=os.path.relpath(r['file'] or '', '/') if r['file'] else '',
                           line=r['line'], statements=r['stmts'], paths=r['paths'], status=r['status'],
                           obligations=len(r['obligations']), time_s=r['time']))
         if r['error']:
@@ -164,7 +166,7 @@ def run_property(pid, tier='quick', seed=0, jobs=16, verbose=False):
             elif o['verdict'] == 'unknown':
                 undecided.append(f"{r['key']}: {n}: solver returned unknown (line {o['line']})")
             else:
-                fails, tried = replay_refutation(REG, c, n, o['model'], pid, known)
+                fails, tried = replay_refutation(REG, c, n, o['model'], pid, known, strict=r['strict'])
                 kf = [k for k in known if k.get('obligation') == n]
                 rp = os.path.join(ROOT, 'replays', pid, _safe(n) + '.json')
                 rec = dict(property=pid, obligation=n, function=r['key'], file=r['file'], line=o['line'],
